@@ -17,7 +17,7 @@ META = {
                   "ALL op scripts (any length, any number of senders) over {Send, CloneSender, DropSender, Close, PollRecv, "
                   "SenderFromReceiver, DropReceiver} on a Gallina model of local-channel/src/mpsc.rs (+ LocalWaker). The model is tied "
                   "to the code by running the extracted model and the real channel on every valid op sequence up to the length bound "
-                  "with <= 3 live senders and 2 waker identities (explicitly to length 6, by per-subtree digests beyond) plus random "
+                  "with <= 3 live senders and 2 waker identities (explicitly to length 6, by per-subtree digests to length 8, thorough 9) plus random "
                   "sequences of length <= 40; per-op observations (send result, poll result, wakes per waker id) are compared op by "
                   "op and the extracted predicate C16_ok is the monitor on the implementation's traces.",
     "level_note": "Trusted: Coq kernel, extraction (ExtrOcamlBasic), OCaml driver, Rust harness (counting wakers, handle table); "
@@ -25,8 +25,8 @@ META = {
                   "(the harness would print PANIC).",
     "rule": "stream c16: every valid op sequence (ops only on live handles, <= 3 senders alive at once, waker ids 0/1, the k-th send "
             "carries value k) of length <= Lx (Lx = 6), enumerated explicitly, + seeded random sequences of length 8..40 with <= 5 live "
-            "senders, 3 waker ids and ~3% ops on dead handles. sweep16: for every valid prefix of length 3, both executables enumerate "
-            "all valid extensions up to total length L (quick 7, thorough 8) and print count + order-independent 62-bit digest of all "
+            "senders, 3 waker ids and ~3% ops on dead handles. sweep16: for every valid prefix of length 4, both executables enumerate "
+            "all valid extensions up to total length L (quick 8, thorough 9) and print count + order-independent 62-bit digest of all "
             "traces; a digest mismatch is expanded into explicit cases. non-trivial = the model trace contains a wake, a failed send "
             "or an end-of-stream.",
     "trusted_base": ["Rc::strong_count == number of live Sender/Receiver handles (handle table of the script layer)",
@@ -216,20 +216,29 @@ def streams(ctx):
     enum = enum16([], INIT, lx)
     nrand = 30000 if ctx.tier == "quick" else 600000
     rnd = [random_case(ctx.rng) for _ in range(nrand)]
-    return [explicit_stream(ctx, enum + rnd,
-                            "exhaustive: all %d valid op sequences of length <= %d (<= 3 live senders, 2 waker ids); "
-                            "random: %d sequences of length 8..40 (<= 5 live senders, 3 waker ids, ~3%% ops on dead handles)"
-                            % (len(enum), lx, nrand))]
+    st = explicit_stream(ctx, enum + rnd,
+                         "exhaustive: all %d valid op sequences of length <= %d (<= 3 live senders, 2 waker ids); "
+                         "random: %d sequences of length 8..40 (<= 5 live senders, 3 waker ids, ~3%% ops on dead handles)"
+                         % (len(enum), lx, nrand))
+    st.n_enum = len(enum)
+    return [st]
 
 
 def custom(ctx):
+    plen = 4
+    overlap = overlap_nt = 0
     for st in streams(ctx):
-        ctx.run_stream(st)
+        impl0, model0 = ctx.run_stream(st)
+        # enumerated sequences of length >= plen are visited again by the sweep: do not count them twice
+        ncorp = len(impl0) - len(st.cases)
+        for c, m in zip(st.cases[:st.n_enum], model0[ncorp:ncorp + st.n_enum]):
+            if len(c.split()) >= plen:
+                overlap += 1
+                overlap_nt += 1 if nontrivial(c, m) else 0
     # ---- digest sweep over all valid sequences up to length L --------------------------------
-    L = 7 if ctx.tier == "quick" else 8
+    L = 8 if ctx.tier == "quick" else 9
     if os.environ.get("VERIF_C16_SWEEP"):
         L = int(os.environ["VERIF_C16_SWEEP"])
-    plen = 3
     prefixes = enum16([], INIT, plen, exact=True)
     cases = ["%d|%s" % (L, p) for p in prefixes]
     sw = Stream("sweep16", "sweep16", cases, timeout=1700)
@@ -246,10 +255,11 @@ def custom(ctx):
             f = dict(x.split("=") for x in m.split())
             total += int(f["n"])
             nt += int(f["nt"])
-    ctx.cov["extra_evaluations"] = ctx.cov.get("extra_evaluations", 0) + total
-    ctx.cov["extra_distinct_nontrivial"] = ctx.cov.get("extra_distinct_nontrivial", 0) + nt
+    ctx.cov["extra_evaluations"] = ctx.cov.get("extra_evaluations", 0) + max(0, total - overlap)
+    ctx.cov["extra_distinct_nontrivial"] = ctx.cov.get("extra_distinct_nontrivial", 0) + max(0, nt - overlap_nt)
     ctx.cov["sweep16"] = {"max_len": L, "prefix_len": plen, "subtrees": len(cases), "sequences": total, "nontrivial": nt,
                           "digest_mismatches": len(bad), "wall_s": round(time.time() - t0, 2),
+                          "also_in_explicit_stream": overlap,
                           "exhaustive_for": "all valid op sequences of length %d..%d, <= %d live senders, waker ids 0/1" % (plen, L, MAX_SENDERS)}
     ctx.cov.setdefault("extra_samples", []).append({"stream": "sweep16", "case": cases[len(cases) // 2],
                                                     "impl": impl[len(cases) // 2], "model": model[len(cases) // 2]})
@@ -259,7 +269,7 @@ def custom(ctx):
         exp = []
         for c, i, m in bad[:6]:
             toks = c.split("|", 1)[1].split()
-            exp += enum16(toks, state_after(toks), min(L, 7))
+            exp += enum16(toks, state_after(toks), min(L, 8))
             if len(exp) > 400000:
                 break
         before = len(ctx.violations) + len(ctx.known_hits)
@@ -269,4 +279,4 @@ def custom(ctx):
             ctx.report("correspondence-broken",
                        {"stream": "sweep16", "case": c, "impl_trace": i, "model_trace": m,
                         "what": "correspondence C16/sweep16 no longer checks: trace digests differ on %d of %d subtrees but no "
-                                "explicit difference was found up to length 7" % (len(bad), len(cases))}, nfi=True)
+                                "explicit difference was found up to length 8" % (len(bad), len(cases))}, nfi=True)
